@@ -925,6 +925,15 @@ func runC11(x *X) *Violation {
 				x.NonTrivial = true
 			}
 		}
+		// "carries the failing test's code": one expected issue of a test and one reported issue at the same place and
+		// of the same type that differ in nothing but the code
+		if m != nil && len(m.Abstain) == 0 && !m.Desync {
+			missing, spurious := matchIssues(res.Issues, m.Issues)
+			if len(missing) == 1 && len(spurious) == 1 && missing[0].Why == "test" && missing[0].Path == spurious[0].Path && missing[0].Type == spurious[0].Type {
+				return &Violation{Class: "C11/issue-code-not-the-failing-tests-own mode=" + op.Kind,
+					Detail: fmt.Sprintf("the failing test reports under code %q, the issue at %q carries %q (%s)", missing[0].Code, spurious[0].Path, spurious[0].Code, spurious[0].Full())}
+			}
+		}
 	}
 	return nil
 }
